@@ -10,6 +10,7 @@ NAMES = [
 
 
 class C04Spec(explore.Spec):
+    tier = "thorough"
     prop = PROP
 
     def alphabet_extra(self, cfg):
@@ -37,6 +38,10 @@ class C04Spec(explore.Spec):
         evs += [alpha.rx("1;0;3;0;0;15"), alpha.rx("1;7;3;0;11;Bogus")]
         # CR LF framed input and trailing blanks: the line terminator and trailing whitespace are not part of the payload
         evs += [alpha.rx("1;255;3;0;11;sk\r"), alpha.rx("1;0;1;0;2;1 \t")]
+        # text outside ASCII arrives as UTF-8 bytes and is mirrored exactly (sketch name, child description)
+        evs += [alpha.rx("1;255;3;0;11;K\u00fchl\u00b0")]
+        if self.tier == "thorough":
+            evs += [alpha.rx("1;0;0;0;6;T\u00fcr \u2603")]
         if cfg.get("flavour") != "async":
             # a burst: two lines queued before the poll thread runs - they take effect in arrival order
             evs += [("rx2", t["SA0"], t["SA0z"]), ("rx2", t["PA"], t["CA0"]), ("rx2", t["SA0z"], t["SA0"])]
@@ -72,6 +77,7 @@ ASSUMPTIONS = [
 
 def run(tier):
     spec = C04Spec()
+    spec.tier = tier
     if tier == "quick":
         return e1check.run_e1(spec, tier, depth=4, state_budget=600000, time_budget=600, rule=RULE, assumptions=ASSUMPTIONS)
     return e1check.run_e1(spec, tier, depth=5, state_budget=3000000, time_budget=1500, rule=RULE, assumptions=ASSUMPTIONS)
